@@ -1165,8 +1165,8 @@ impl LZDiff {
             }
         }
 
-        // Remaining bases are literals
-        est_cost += text_size - i;
+        // Remaining bases are literals (a back-extended match may already have taken i past the end)
+        est_cost += text_size.saturating_sub(i);
 
         est_cost
     }
